@@ -13,8 +13,10 @@ package main
 
 import (
 	"bytes"
+	"compress/gzip"
 	"crypto/ecdsa"
 	"crypto/elliptic"
+	"crypto/md5"
 	"crypto/rand"
 	"crypto/rsa"
 	"encoding/base64"
@@ -204,6 +206,65 @@ type reqSpec struct {
 	Form      string `json:"form"`      // comma | comma-suffix | comma-ext | slash | slash-name
 	Fid       string `json:"fid"`
 	TokenStr  string `json:"token_string"`
+	Var       string `json:"variation,omitempty"` // name of a request variation ("" = plain request)
+}
+
+// variation is a query / header / body decoration that the volume server's handlers
+// interpret (replica marker, chunk-manifest flag, timestamps, ttl, fsync, readDeleted,
+// content encoding, pair headers ...). None of them may influence the token decision.
+type variation struct {
+	Name     string
+	Ops      []string
+	Query    string
+	Headers  map[string]string
+	Body     string // "" | "gzip" (body sent gzipped with Content-Encoding) | "md5" (correct Content-MD5) | "form" (urlencoded body carrying the parameters, PUT only)
+	Resync   bool   // a permitted write leaves something else than the sent content: the harness overwrites it afterwards
+	Read     string // what a permitted GET returns: "full" | "range"
+	Thorough bool   // only in the thorough tier (the quick tier carries a combined variant)
+}
+
+var variations = []variation{
+	{Name: "type-replicate", Ops: []string{"PUT", "POST", "DELETE", "GET", "HEAD"}, Query: "type=replicate", Read: "full"},
+	{Name: "replica-like", Ops: []string{"PUT", "POST", "DELETE"}, Query: "type=replicate&ttl=&ts=1600000000"},
+	{Name: "cm-true", Ops: []string{"PUT", "POST"}, Query: "cm=true", Resync: true},
+	{Name: "ts", Ops: []string{"PUT", "POST", "DELETE"}, Query: "ts=1600000000", Thorough: true},
+	{Name: "ttl", Ops: []string{"PUT", "POST"}, Query: "ttl=7d"},
+	{Name: "fsync", Ops: []string{"PUT", "POST"}, Query: "fsync=true", Thorough: true},
+	{Name: "gzip-body", Ops: []string{"PUT", "POST"}, Body: "gzip"},
+	{Name: "md5-and-pair-headers", Ops: []string{"PUT", "POST"}, Body: "md5", Headers: map[string]string{"Seaweed-Owner": "verif"}},
+	{Name: "content-md5", Ops: []string{"PUT", "POST"}, Body: "md5", Thorough: true},
+	{Name: "pair-header", Ops: []string{"PUT", "POST"}, Headers: map[string]string{"Seaweed-Owner": "verif"}, Thorough: true},
+	{Name: "form-body-replicate", Ops: []string{"PUT"}, Query: "type=replicate&fsync=true", Body: "form", Resync: true},
+	{Name: "read-deleted", Ops: []string{"GET", "HEAD"}, Query: "readDeleted=true", Read: "full"},
+	{Name: "cm-false", Ops: []string{"GET", "HEAD"}, Query: "cm=false", Read: "full"},
+	{Name: "range", Ops: []string{"GET"}, Headers: map[string]string{"Range": "bytes=0-3"}, Read: "range"},
+	{Name: "conditional", Ops: []string{"GET", "HEAD"}, Headers: map[string]string{"If-None-Match": "\"00000000\"", "If-Modified-Since": "Mon, 01 Jan 2018 00:00:00 GMT"}, Read: "full", Thorough: true},
+}
+
+func variationByName(n string) *variation {
+	for i := range variations {
+		if variations[i].Name == n {
+			return &variations[i]
+		}
+	}
+	return nil
+}
+
+func (v *variation) appliesTo(op string) bool {
+	for _, o := range v.Ops {
+		if o == op {
+			return true
+		}
+	}
+	return false
+}
+
+func gzipped(b []byte) []byte {
+	var buf bytes.Buffer
+	zw := gzip.NewWriter(&buf)
+	_, _ = zw.Write(b)
+	_ = zw.Close()
+	return buf.Bytes()
 }
 
 func pathFor(form, fid string) string {
@@ -223,17 +284,41 @@ func pathFor(form, fid string) string {
 
 func (w *world) send(cf *config, s reqSpec, body []byte) (status int, respBody []byte, err error) {
 	u := cf.Url + pathFor(s.Form, s.Fid)
+	v := variationByName(s.Var)
+	var q []string
 	if s.Transport == "query" && s.TokenStr != "" {
-		u += "?jwt=" + s.TokenStr
+		q = append(q, "jwt="+s.TokenStr)
+	}
+	if v != nil && v.Query != "" && v.Body != "form" {
+		q = append(q, v.Query)
+	}
+	if len(q) > 0 {
+		u += "?" + strings.Join(q, "&")
+	}
+	md5Header := ""
+	if v != nil && v.Body == "md5" {
+		sum := md5.Sum(body)
+		md5Header = base64.StdEncoding.EncodeToString(sum[:])
+	}
+	if v != nil && v.Body == "gzip" {
+		body = gzipped(body)
 	}
 	var req *http.Request
-	switch s.Op {
-	case "POST":
+	switch {
+	case s.Op == "PUT" && v != nil && v.Body == "form":
+		req, err = http.NewRequest("PUT", u, strings.NewReader(v.Query))
+		if err == nil {
+			req.Header.Set("Content-Type", "application/x-www-form-urlencoded")
+		}
+	case s.Op == "POST":
 		var buf bytes.Buffer
 		mw := multipart.NewWriter(&buf)
 		h := make(textproto.MIMEHeader)
 		h.Set("Content-Disposition", `form-data; name="file"; filename="x.bin"`)
 		h.Set("Content-Type", "application/octet-stream")
+		if v != nil && v.Body == "gzip" {
+			h.Set("Content-Encoding", "gzip")
+		}
 		pw, _ := mw.CreatePart(h)
 		_, _ = pw.Write(body)
 		_ = mw.Close()
@@ -241,16 +326,27 @@ func (w *world) send(cf *config, s reqSpec, body []byte) (status int, respBody [
 		if err == nil {
 			req.Header.Set("Content-Type", mw.FormDataContentType())
 		}
-	case "PUT":
+	case s.Op == "PUT":
 		req, err = http.NewRequest("PUT", u, bytes.NewReader(body))
 		if err == nil {
 			req.Header.Set("Content-Type", "application/octet-stream")
+			if v != nil && v.Body == "gzip" {
+				req.Header.Set("Content-Encoding", "gzip")
+			}
 		}
 	default:
 		req, err = http.NewRequest(s.Op, u, nil)
 	}
 	if err != nil {
 		return 0, nil, err
+	}
+	if md5Header != "" {
+		req.Header.Set("Content-MD5", md5Header)
+	}
+	if v != nil {
+		for k, hv := range v.Headers {
+			req.Header.Set(k, hv)
+		}
 	}
 	if s.TokenStr != "" {
 		switch s.Transport {
@@ -323,7 +419,7 @@ func opKind(op string) string {
 
 // runCase executes one request and judges it. It returns false when the harness
 // could not set the case up.
-func (w *world) runCase(cf *config, op, form, transport string, tc tokenClass) bool {
+func (w *world) runCase(cf *config, op, form, transport string, tc tokenClass, v *variation) bool {
 	r := w.r
 	// target and a second live file
 	var target, other *file
@@ -358,6 +454,11 @@ func (w *world) runCase(cf *config, op, form, transport string, tc tokenClass) b
 		signKey = keyOther // the operation is unguarded on this server: whatever is presented must not matter
 	}
 	s := reqSpec{Config: cf.Name, Op: op, Token: tc.Name, Transport: transport, Form: form, Fid: target.Fid}
+	vname := ""
+	if v != nil {
+		vname = v.Name
+		s.Var = v.Name
+	}
 	s.TokenStr = tc.Build(signKey, crossKey, target.Fid, other.Fid)
 	allow := !guarded || tc.Valid
 	w.nonce++
@@ -366,6 +467,10 @@ func (w *world) runCase(cf *config, op, form, transport string, tc tokenClass) b
 	st, body, err := w.send(cf, s, newContent)
 	r.Eval(1)
 	sig := lib.Sig{"op": kind, "config": cf.Name, "token": tc.Name, "transport": transport, "form": form}
+	if v != nil {
+		sig["variation"] = v.Name
+		r.Count("variation_"+v.Name, 1)
+	}
 	detail := map[string]interface{}{"request": s, "status": st, "resp_body": string(body), "guarded": guarded, "expected_allow": allow, "method": op}
 	if err != nil {
 		sig["class"] = "request-failed"
@@ -387,17 +492,39 @@ func (w *world) runCase(cf *config, op, form, transport string, tc tokenClass) b
 		r.Count("allowed_"+kind, 1)
 		if guarded {
 			r.Count("allowed_with_valid_token_"+kind, 1)
-			r.Nontrivial(fmt.Sprintf("allow/%s/%s/%s/%s/%s", cf.Name, op, form, transport, tc.Name))
+			r.Nontrivial(fmt.Sprintf("allow/%s/%s/%s/%s/%s/%s", cf.Name, op, form, transport, tc.Name, vname))
 		}
 		// follow the effect of a permitted operation
 		if !suffixed {
 			switch {
 			case kind == "write" && (st == 201 || st == 204):
 				target.Content = newContent
+				if v != nil && v.Resync {
+					// the stored blob is a chunk manifest / an empty blob now: overwrite it with a plain authorised write
+					w.nonce++
+					fresh := []byte(fmt.Sprintf("resync-%s-%d", cf.Name, w.nonce))
+					rs := reqSpec{Config: cf.Name, Op: "PUT", Token: "valid", Transport: "bearer", Form: "comma", Fid: target.Fid}
+					if cf.WriteKey != "" {
+						rs.TokenStr = sign(jwt.SigningMethodHS256, []byte(cf.WriteKey), claimsFor(target.Fid))
+					}
+					if rst, rb, rerr := w.send(cf, rs, fresh); rerr != nil || rst != 201 {
+						r.Inconclusive(fmt.Sprintf("resync write after variation %s on %s: status %d err %v body %s", v.Name, cf.Name, rst, rerr, rb))
+						target.Live = false
+					} else {
+						target.Content = fresh
+					}
+				}
+				if guarded && v != nil {
+					r.Count("allowed_with_variation_write", 1)
+				}
 			case kind == "delete" && st == 202:
 				target.Live = false
 			case kind == "read" && form == "comma" && op == "GET":
-				if st != 200 || !bytes.Equal(body, target.Content) {
+				want, wantSt := target.Content, 200
+				if v != nil && v.Read == "range" {
+					want, wantSt = target.Content[:4], 206
+				}
+				if st != wantSt || !bytes.Equal(body, want) {
 					sig["class"] = "authorised-read-wrong"
 					r.Violation(sig, detail)
 				}
@@ -463,7 +590,10 @@ func (w *world) runCase(cf *config, op, form, transport string, tc tokenClass) b
 	if ok {
 		r.Count("refused_"+kind, 1)
 		r.Count("refused_token_"+tc.Name, 1)
-		r.Nontrivial(fmt.Sprintf("deny/%s/%s/%s/%s/%s", cf.Name, op, form, transport, tc.Name))
+		r.Nontrivial(fmt.Sprintf("deny/%s/%s/%s/%s/%s/%s", cf.Name, op, form, transport, tc.Name, vname))
+		if v != nil {
+			r.Count("refused_with_variation_"+kind, 1)
+		}
 	}
 	return true
 }
@@ -527,7 +657,7 @@ func main() {
 		if cf == nil || tc.Build == nil {
 			r.Must(fmt.Errorf("unknown config/token class in replay"), "replay")
 		}
-		w.runCase(cf, d.Request.Op, d.Request.Form, d.Request.Transport, tc)
+		w.runCase(cf, d.Request.Op, d.Request.Form, d.Request.Transport, tc, variationByName(d.Request.Var))
 		c.Stop()
 		r.Finish(0)
 	}
@@ -570,10 +700,10 @@ func main() {
 					if tc.Name == "missing" && tri > 0 {
 						continue
 					}
-					if r.Quick() && tri == (ti+len(op))%3 && tc.Name != "valid" {
+					if r.Quick() && tri != (ti+len(op))%3 && tc.Name != "valid" { // quick: one transport per (op, class) here; the variations below rotate through the others
 						continue
 					}
-					if !w.runCase(cf, op, "comma", tr, tc) {
+					if !w.runCase(cf, op, "comma", tr, tc, nil) {
 						goto done
 					}
 					n++
@@ -583,10 +713,25 @@ func main() {
 					if r.Quick() && !(tc.Valid || (ti+fi)%4 == 0 || tc.Name == "other-file" || tc.Name == "claim-with-suffix") {
 						continue
 					}
-					if !w.runCase(cf, op, form, transports[rng.Intn(3)], tc) {
+					if !w.runCase(cf, op, form, transports[rng.Intn(3)], tc, nil) {
 						goto done
 					}
 					n++
+				}
+				// the same judged request with every parameter/header/body variation the
+				// handlers interpret (guarded operations: every token class; unguarded: controls)
+				opGuarded := (opKind(op) == "read" && cf.ReadKey != "") || (opKind(op) != "read" && cf.WriteKey != "")
+				if opGuarded || tc.Name == "missing" || tc.Name == "valid" {
+					for vi := range variations {
+						v := &variations[vi]
+						if !v.appliesTo(op) || (v.Thorough && r.Quick()) {
+							continue
+						}
+						if !w.runCase(cf, op, "comma", transports[(ti+vi)%3], tc, v) {
+							goto done
+						}
+						n++
+					}
 				}
 				if r.Violations() > 40 {
 					goto done
@@ -599,7 +744,12 @@ func main() {
 		cf := cfgs[rng.Intn(len(cfgs))]
 		op := ops[rng.Intn(len(ops))]
 		f := forms[op]
-		if !w.runCase(cf, op, f[rng.Intn(len(f))], transports[rng.Intn(3)], tokenClasses[rng.Intn(len(tokenClasses))]) {
+		var v *variation
+		form := f[rng.Intn(len(f))]
+		if c := &variations[rng.Intn(len(variations))]; rng.Intn(2) == 0 && c.appliesTo(op) {
+			v, form = c, "comma"
+		}
+		if !w.runCase(cf, op, form, transports[rng.Intn(3)], tokenClasses[rng.Intn(len(tokenClasses))], v) {
 			break
 		}
 		n++
